@@ -13,7 +13,10 @@ use hir_ty::{InferenceCtx, InferenceResult, TyDiagnosticKind};
 use interner::Interner;
 use la_arena::Arena;
 
-fn too_big(src: &str) -> Result<bool, String> {
+fn too_big(src: &str) -> Result<bool, String> { diag_present(src, false) }
+
+/// does the checker report IntTooBigForType (index = false) / IndexOutOfBounds (index = true)?
+fn diag_present(src: &str, want_index: bool) -> Result<bool, String> {
     let mut interner = Interner::default();
     let mut world_index = hir::WorldIndex::default();
     let mut uid_gen = UIDGenerator::default();
@@ -41,7 +44,7 @@ fn too_big(src: &str) -> Result<bool, String> {
         panic!("no comptime block in these programs")
     })
     .finish(None, true);
-    let n = diagnostics.iter().filter(|d| matches!(d.kind, TyDiagnosticKind::IntTooBigForType { .. })).count();
+    let n = diagnostics.iter().filter(|d| if want_index { matches!(d.kind, TyDiagnosticKind::IndexOutOfBounds { .. }) } else { matches!(d.kind, TyDiagnosticKind::IntTooBigForType { .. }) }).count();
     let other = diagnostics.len() - n;
     if other != 0 {
         return Err(format!("{} other diagnostics: {:?}", other, diagnostics.iter().map(|d| format!("{:?}", d.kind)).collect::<Vec<_>>()));
@@ -49,8 +52,60 @@ fn too_big(src: &str) -> Result<bool, String> {
     Ok(n > 0)
 }
 
+/// C10, last clause: "a literal index that is out of range for a fixed-size array is rejected
+/// at compile time" -- every array length x literal index x way of reaching the array
+fn index_mode(thorough: bool) {
+    let lens: Vec<u64> = if thorough { vec![1, 2, 3, 5, 8, 255, 256, 65536] } else { vec![1, 2, 5, 256] };
+    let contexts: Vec<(&str, &str)> = vec![
+        ("local array", "main :: () { a : [{N}]i32 = {INIT}; x := a[{I}]; }"),
+        ("through a pointer", "main :: () { a : [{N}]i32 = {INIT}; p := ^a; x := p[{I}]; }"),
+        ("store", "main :: () { a : [{N}]i32 = {INIT}; a[{I}] = 1; }"),
+        ("nested array", "main :: () { a : [2][{N}]i32 = {INIT2}; x := a[1][{I}]; }"),
+        ("struct field", "S :: struct { a: [{N}]i32 };\nmain :: () { s := S.{ a = {INIT} }; x := s.a[{I}]; }"),
+        ("pointer to pointer", "main :: () { a : [{N}]i32 = {INIT}; p := ^a; q := ^p; x := q[{I}]; }"),
+    ];
+    let mut runs = 0u64;
+    for (cname, tmpl) in &contexts {
+        for &n in &lens {
+            let mut idxs: Vec<u64> = vec![0, n.saturating_sub(1), n, n + 1, n + 4];
+            idxs.dedup();
+            for i in idxs {
+                // array literals are only written out for small lengths
+                if n > 8 { continue; }
+                let init = format!(".[{}]", vec!["0"; n as usize].join(", "));
+                let init2 = format!(".[{}, {}]", init, init);
+                let src = tmpl.replace("{N}", &n.to_string()).replace("{INIT2}", &init2).replace("{INIT}", &init).replace("{I}", &i.to_string());
+                runs += 1;
+                let expect_rejected = i >= n;
+                let src2 = src.clone();
+                match std::thread::spawn(move || diag_present(&src2, true)).join() {
+                    Ok(Ok(got)) => {
+                        if got != expect_rejected {
+                            println!("MISMATCH context `{}`: literal index {} into an array of {} is {} (program: {})", cname, i, n,
+                                     if got { "rejected although it is in range" } else { "accepted although it is out of range" }, src.replace('\n', " "));
+                            println!("SUMMARY mode=index contexts={} lengths={} runs={} mismatches=1", contexts.len(), lens.len(), runs);
+                            std::process::exit(1);
+                        }
+                    }
+                    Ok(Err(e)) => { if i == 0 { println!("SKIPPED context `{}` for length {}: {}", cname, n, e); } }
+                    Err(_) => {
+                        println!("MISMATCH context `{}`: the checker panicked on: {}", cname, src.replace('\n', " "));
+                        println!("SUMMARY mode=index contexts={} lengths={} runs={} mismatches=1", contexts.len(), lens.len(), runs);
+                        std::process::exit(1);
+                    }
+                }
+            }
+        }
+    }
+    println!("SUMMARY mode=index contexts={} lengths={} runs={} mismatches=0", contexts.len(), lens.len(), runs);
+}
+
 fn main() {
     std::panic::set_hook(Box::new(|_| {}));
+    if std::env::args().nth(1).map(|s| s == "index").unwrap_or(false) {
+        index_mode(std::env::args().nth(2).map(|s| s == "thorough").unwrap_or(false));
+        return;
+    }
     let thorough = std::env::args().nth(1).map(|s| s == "thorough").unwrap_or(false);
     // (name, largest value of the type, capped at u64::MAX -- the literal domain)
     let types: [(&str, u128); 12] = [
